@@ -146,7 +146,75 @@ def bounded_sat(s: z3.Solver, eng: Engine):
     return z3.unknown
 
 
+def finite_scope_model(s: z3.Solver, eng: Engine):
+    from pyvc.values import _sorts
+    sizes: List[Any] = []
+    ints: List[Any] = []
+    for v in eng.inputs.values():
+        size_terms(v, eng, sizes, ints)
+    for nobj, bound in ((3, 2), (4, 2)):
+        s.push()
+        try:
+            for name, srt in _sorts.items():
+                cs = [z3.Const(f"{name}!obj{k}", srt) for k in range(nobj)]
+                x = z3.Const(f"{name}!x", srt)
+                s.add(z3.ForAll([x], z3.Or(*[x == c for c in cs])))
+            for t in sizes:
+                s.add(t <= bound)
+            for t in ints:
+                s.add(t >= -1, t <= bound + 1)
+            s.set("timeout", 30000)
+            if s.check() == z3.sat:
+                return s.model()
+        finally:
+            s.pop()
+    return None
+
+
+def split_goal(g) -> List[Any]:
+    """conjunctive goals are proved conjunct by conjunct (also under a universal
+    quantifier with an implication): smaller queries, more stable verdicts"""
+    if z3.is_and(g):
+        out = []
+        for ch in g.children():
+            out += split_goal(ch)
+        return out
+    if z3.is_quantifier(g) and g.is_forall() and g.num_vars() == 1:
+        body = g.body()
+        if z3.is_implies(body) and z3.is_and(body.arg(1)) :
+            v = z3.Const(g.var_name(0), g.var_sort(0))
+            ante = z3.substitute_vars(body.arg(0), v)
+            parts = []
+            for ch in body.arg(1).children():
+                parts += split_goal(z3.ForAll([v], z3.Implies(ante, z3.substitute_vars(ch, v))))
+            return parts
+    return [g]
+
+
 def solve_obligation(o: Obligation, eng: Engine) -> Dict[str, Any]:
+    t0 = time.time()
+    if o.kind not in ("cover",):
+        parts = split_goal(o.goal)
+        if len(parts) > 1:
+            worst = None
+            for k, gpart in enumerate(parts):
+                sub = Obligation(o.name, o.kind, o.hyps, gpart, o.lineno, detail=o.detail)
+                r = _solve_one(sub, eng)
+                if r["verdict"] != "proved":
+                    r["detail"] = (r.get("detail") or "") + f" [conjunct {k + 1}/{len(parts)}]"
+                    if r["verdict"] == "refuted":
+                        r["time_s"] = time.time() - t0
+                        return r
+                    worst = worst or r
+            if worst is not None:
+                worst["time_s"] = time.time() - t0
+                return worst
+            return dict(name=o.name, kind=o.kind, lineno=o.lineno, detail=o.detail, verdict="proved",
+                        backend="z3-5.1.0", time_s=time.time() - t0, conjuncts=len(parts))
+    return _solve_one(o, eng)
+
+
+def _solve_one(o: Obligation, eng: Engine) -> Dict[str, Any]:
     t0 = time.time()
     res: Dict[str, Any] = dict(name=o.name, kind=o.kind, lineno=o.lineno, detail=o.detail)
     if o.kind != "cover" and z3.is_true(z3.simplify(o.goal)):
@@ -177,8 +245,18 @@ def solve_obligation(o: Obligation, eng: Engine) -> Dict[str, Any]:
         res.update(verdict="proved", backend=backend, time_s=time.time() - t0)
         return res
     if verdict == "unknown":
-        res.update(verdict="unknown", backend=backend, time_s=time.time() - t0,
-                   reason=s.reason_unknown() if r == z3.unknown else "")
+        # finite-scope refutation: a model with at most 4 objects per record sort, sequences of
+        # length <= 2 and small integers is still a genuine counter-model of the obligation
+        m = finite_scope_model(s, eng)
+        if m is None:
+            res.update(verdict="unknown", backend=backend, time_s=time.time() - t0,
+                       reason=s.reason_unknown() if r == z3.unknown else "")
+            return res
+        res.update(verdict="refuted", backend=backend + " (finite scope)", time_s=time.time() - t0)
+        try:
+            res["model"] = {n: concretize(v, m, eng) for n, v in eng.inputs.items()}
+        except Exception as exc:  # noqa
+            res["model_error"] = repr(exc)
         return res
     # refuted: find a small model
     model = s.model() if r == z3.sat else None
